@@ -481,13 +481,20 @@ def find_scope(project, path, ifbody=None):
     import ford.sourceform as sf
     name = path[0]
     cur = None
-    for coll in (project.modules, project.submodules, project.programs, project.procedures):
-        for u in coll:
-            if str(u.name).lower() == name and isinstance(getattr(u, "parent", None), sf.FortranSourceFile):
+    if ":" in name:
+        anc, sub = name.split(":")
+        for u in project.submodules:
+            if str(u.name).lower() == sub and str(getattr(u.ancestor_module, "name", u.ancestor_module)).lower() == anc:
                 cur = u
                 break
-        if cur:
-            break
+    else:
+        for coll in (project.modules, project.submodules, project.programs, project.procedures):
+            for u in coll:
+                if str(u.name).lower() == name and isinstance(getattr(u, "parent", None), sf.FortranSourceFile):
+                    cur = u
+                    break
+            if cur:
+                break
     if cur is None:
         return None
     for nm in path[1:]:
@@ -530,6 +537,57 @@ def observe(project, r):
                 v = n.variables[0]
                 return refsem.ford_ident(v) if not isinstance(v, str) else None
         return "<namelist not found>"
+    if slot in ("binding", "bindiface"):
+        tname, bname = r["at"].split("%")
+        for t in getattr(s, "types", []):
+            if t.name.lower() == tname.lower():
+                for bp in t.boundprocs:
+                    if bp.name.lower() == bname.lower() and bp.parent is t:
+                        x = bp.bindings[0] if slot == "binding" else bp.proto
+                        return refsem.ford_ident(x) if not isinstance(x, str) else None
+        return "<binding not found>"
+    if slot == "final":
+        tname, fname = r["at"].split("%")
+        for t in getattr(s, "types", []):
+            if t.name.lower() == tname.lower():
+                for fp in t.finalprocs:
+                    if fp.name.lower() == fname.lower():
+                        return refsem.ford_ident(fp.procedure) if fp.procedure is not None else None
+        return "<final not found>"
+    if slot == "specific":
+        for i in getattr(s, "interfaces", []):
+            if getattr(i, "generic", False) and i.name.lower() == r["at"].lower():
+                for mp in i.modprocs:
+                    if mp.name.lower() == r["name"].lower():
+                        return refsem.ford_ident(mp.procedure) if mp.procedure is not None else None
+                for v in getattr(i, "variables", []):
+                    if v.name.lower() == r["name"].lower():
+                        return refsem.ford_ident(v)
+        # FORD leaves a specific it cannot find out of the interface (with a warning): unresolved
+        return None
+    if slot == "constructor":
+        for t in getattr(s, "types", []):
+            if t.name.lower() == r["at"].lower():
+                return refsem.ford_ident(t.constructor) if t.constructor is not None else None
+        return "<type not found>"
+    if slot == "subparent":
+        ps = s.parent_submodule
+        anc = s.ancestor_module
+        a = str(getattr(anc, "name", anc)).lower()
+        if ps is None:
+            return a
+        if isinstance(ps, str):
+            return f"{a}:unresolved:{ps.lower()}"
+        return f"{str(getattr(ps.ancestor_module, 'name', ps.ancestor_module)).lower()}:{ps.name.lower()}"
+    if slot == "mpiface":
+        for p in list(getattr(s, "modprocedures", [])) + list(getattr(s, "modsubroutines", [])) + \
+                list(getattr(s, "modfunctions", [])) + list(getattr(s, "subroutines", [])) + list(getattr(s, "functions", [])):
+            if p.name.lower() == r["at"].lower():
+                m = p.module
+                if m is True or m is False or m is None or isinstance(m, str):
+                    return None
+                return refsem.ford_ident(m)
+        return "<module procedure not found>"
     if slot == "calls":
         out = []
         for c in getattr(s, "calls", []):
